@@ -140,6 +140,10 @@ def simp_val(v):
 
 
 def binop(it, op, a, b):
+    # objects that define the operator themselves (stubs of library types: a mask | a mask)
+    for x in (a, b):
+        if isinstance(x, SObj) and x.attrs.get('__binop__') is not None:
+            return x.attrs['__binop__'](it, op, a, b)
     # concrete fast path
     if not isinstance(a, (Sym, SObj)) and not isinstance(b, (Sym, SObj)):
         if (isinstance(a, (list, tuple)) and any(isinstance(x, (Sym, SObj)) for x in a)
@@ -278,6 +282,8 @@ def binop(it, op, a, b):
 
 
 def unaryop(it, op, a):
+    if isinstance(a, SObj) and op != 'not' and a.attrs.get('__unaryop__') is not None:
+        return a.attrs['__unaryop__'](it, op, a)
     if op == 'not':
         t = truth(it, a)
         if isinstance(t, bool):
@@ -398,12 +404,19 @@ def compare(it, op, a, b):
     if op == 'not in':
         r = contains(it, b, a)
         return (not r) if isinstance(r, bool) else SBool(z3.Not(r.z))
+    if op in ('==', '!='):
+        for x in (a, b):
+            if isinstance(x, SObj) and x.attrs.get('__cmp__') is not None:
+                return x.attrs['__cmp__'](it, op, a, b)
     if op == '==':
         return to_sbool(values_equal(it, a, b))
     if op == '!=':
         r = values_equal(it, a, b)
         return (not r) if isinstance(r, bool) else SBool(z3.Not(r))
     # ordering
+    for x in (a, b):
+        if isinstance(x, SObj) and x.attrs.get('__cmp__') is not None:
+            return x.attrs['__cmp__'](it, op, a, b)
     if not isinstance(a, (Sym, SObj)) and not isinstance(b, (Sym, SObj)):
         try:
             return {'<': lambda: a < b, '<=': lambda: a <= b,
